@@ -589,7 +589,8 @@ Proof.
   - intros b w H. frame_eq H.
   - intros n w H. frame_eq H.
   - intros t b w H. frame_eq H.
-  - intros t w H. destruct (drop_callback_view t w). eapply wf_frame_eq; eauto.
+  - intros t k w H _. unfold rn_dropped. destruct (drop_callback_view t w). eapply wf_frame_eq; [| |exact H]; assumption.
+  - intros t k w H _. unfold rn_despawn_missing. eapply wf_frame_eq; [| |apply wf_despawn; destruct (drop_callback_view t w); eapply wf_frame_eq; [| |exact H]; eassumption]; reflexivity.
   - intros t w H. apply wf_despawn. exact H.
   - intros t cb b w H. frame_eq H.
   - intros t tk w H. unfold once_finish. destruct (alookup t (cbs w)); [frame_eq H|exact H].
